@@ -4,7 +4,7 @@ package h2
 
 // C09: HTTP/2 relay flow control and frame sizes.
 //
-//vf:assume C09: one operation from an arbitrary pre-state (inductive step): 2 known streams + optionally a new one, queues of <=2 (quick) / <=3 (thorough) frames, windows arbitrary ints in (-2^31, 2^31), SETTINGS/WINDOW_UPDATE values as a conforming peer may send them (1..2^31-1; <=2^31-1)
+//vf:assume C09: one operation from an arbitrary pre-state (inductive step): 2 known streams (or none yet) + optionally a new one, queues of <=2 (quick) / <=3 (thorough) frames, windows arbitrary ints in (-2^31, 2^31), SETTINGS/WINDOW_UPDATE values as a conforming peer may send them (1..2^31-1; <=2^31-1)
 //vf:assume C09: DATA payload sizes from {0,1,2,5}; max frame size symbolic in [1,4] for the split harnesses (the code is size-generic; RFC minimum 16384 is outside the explored range)
 //vf:assume C09: lock-granular atomicity (flowMu critical sections); the writer goroutine and channel capacity are outside (output channel given capacity 64)
 
@@ -72,7 +72,11 @@ func vfH_C09_step() {
 	r.connectionWindowSize = conn
 
 	var streams []*vfStream
-	for _, id := range []uint32{1, 3} {
+	known := []uint32{1, 3}
+	if vfrt.Choice("no-stream-yet", 2) == 1 {
+		known = nil // nothing has been relayed towards this endpoint yet (e.g. its first SETTINGS frame)
+	}
+	for _, id := range known {
 		w := &outputBuffer{windowSize: vfWindow("stream-window")}
 		r.outputBuffers[id] = w
 		st := &vfStream{id: id, w: w, window: w.windowSize}
